@@ -10,6 +10,7 @@ Driver for C17 (see harness/c17 for the line protocol).
                                          → `len:eof:adv,…;<end>` (every split call up to the last token)
     dec <doc> <sizes> <dataEOF> <lim>    `NewDecoder` read to the end
                                          → `len:style:quote:info,…;<end>` (info hex, `~` = nil)
+    longdec <pre> <n> <suf> <sizes> <dataEOF> <lim>   as `dec` for the document pre ++ n×"a" ++ suf
 -/
 namespace XmppModel.Driver.C17
 open XmppModel XmppModel.Styling
@@ -63,6 +64,13 @@ def handle (args : List String) : Option String :=
   | ["dec", doc, sizes, deof, lim] => do
     let d ← hexDecode doc; let sz ← parseNatList sizes; let de ← parseBool deof; let l ← parseLimit lim
     let r := decode l ⟨sz, de⟩ d
+    match r.1 with
+    | none => pure "PANIC"
+    | some evs => pure (joinList (evs.map showEvent) ++ ";" ++ showEnd r.2)
+  | ["longdec", pre, n, suf, sizes, deof, lim] => do
+    let p ← hexDecode pre; let k ← n.toNat?; let s ← hexDecode suf
+    let sz ← parseNatList sizes; let de ← parseBool deof; let l ← parseLimit lim
+    let r := decode l ⟨sz, de⟩ (p ++ List.replicate k 0x61 ++ s)
     match r.1 with
     | none => pure "PANIC"
     | some evs => pure (joinList (evs.map showEvent) ++ ";" ++ showEnd r.2)
